@@ -129,6 +129,8 @@ pub struct FaultState {
     pub delivered: Vec<(u64, CallKind, u32)>,
     /// file offset at which each delivered fault struck (same order as `delivered`)
     pub delivered_pos: Vec<u64>,
+    /// a write reached the backend after its last successful flush
+    pub unflushed: bool,
 }
 
 #[derive(Clone)]
@@ -149,6 +151,10 @@ impl FaultCtl {
         s.log.clear();
         s.delivered.clear();
         s.delivered_pos.clear();
+    }
+    /// Has a write reached the backend since its last successful flush?
+    pub fn unflushed(&self) -> bool {
+        self.0.lock().unwrap().unflushed
     }
     pub fn disarm(&self) {
         self.0.lock().unwrap().armed = false;
@@ -273,13 +279,23 @@ impl<F: Write + HasPos> Write for FaultFile<F> {
             Some(Fault::Short(c)) => limit = limit.min(c.max(1)),
             None => {}
         }
-        self.inner.write(&buf[..limit])
+        let r = self.inner.write(&buf[..limit]);
+        if matches!(r, Ok(n) if n > 0) {
+            self.ctl.0.lock().unwrap().unflushed = true;
+        }
+        r
     }
     fn flush(&mut self) -> io::Result<()> {
         let (fault, _) = self.ctl.decide(CallKind::Flush, self.inner.position());
         match fault {
             Some(Fault::Fail) => Err(fail()),
-            _ => self.inner.flush(),
+            _ => {
+                let r = self.inner.flush();
+                if r.is_ok() {
+                    self.ctl.0.lock().unwrap().unflushed = false;
+                }
+                r
+            }
         }
     }
 }
@@ -295,6 +311,7 @@ impl<F: Seek + HasPos> Seek for FaultFile<F> {
         let (fault, _) = self.ctl.decide(CallKind::Seek, target);
         match fault {
             Some(Fault::Fail) => Err(fail()),
+            Some(Fault::Interrupted) => Err(interrupted()),
             _ => self.inner.seek(pos),
         }
     }
